@@ -1881,6 +1881,10 @@ class Cluster(object):
         if self.is_shutdown:
             return
 
+        if self.metadata.get_host(host.endpoint) is not host:
+            log.debug("Ignoring up status of node %s, which was removed from the cluster", host)
+            return
+
         log.debug("Waiting to acquire lock for handling up status of node %s", host)
         with host.lock:
             if host._currently_handling_node_up:
@@ -1957,6 +1961,10 @@ class Cluster(object):
         if self.profile_manager.distance(host) == HostDistance.IGNORED:
             return
 
+        if self.metadata.get_host(host.endpoint) is not host:
+            # removed from the cluster meanwhile
+            return
+
         schedule = self.reconnection_policy.new_schedule()
 
         # in order to not hold references to this Cluster open and prevent
@@ -1974,6 +1982,14 @@ class Cluster(object):
             log.debug("Old host reconnector found for %s, cancelling", host)
             old_reconnector.cancel()
 
+        if self.metadata.get_host(host.endpoint) is not host:
+            # removed while the handler was being installed: on_remove may have
+            # looked for a handler to cancel before this one was in place
+            reconnector = host.get_and_set_reconnection_handler(None)
+            if reconnector:
+                reconnector.cancel()
+            return
+
         log.debug("Starting reconnector for host %s", host)
         reconnector.start()
 
@@ -1983,6 +1999,10 @@ class Cluster(object):
         Intended for internal use only.
         """
         if self.is_shutdown:
+            return
+
+        if self.metadata.get_host(host.endpoint) is not host:
+            log.debug("Ignoring down status of node %s, which was removed from the cluster", host)
             return
 
         with host.lock:
